@@ -2,7 +2,7 @@
    The extracted OCaml driver and the in-Coq replays both call only this. *)
 From Coq Require Import List ZArith NArith Bool.
 From AG Require Import Base.Val Base.Sort Str.MetaVar Str.AnB Str.Substring
-  Rewrite.Indent Rewrite.Template Tree.Tree Tree.Wf Match.MatchNode Match.Prefilter Rule.Rule Rule.Kinds Rule.Traversal Rule.Scan Rule.Eval Rule.Sem Rewrite.Splice Front.JsonPrint.
+  Rewrite.Indent Rewrite.Template Tree.Tree Tree.Wf Match.MatchNode Match.Prefilter Rule.Rule Rule.Kinds Rule.Traversal Rule.Scan Rule.Eval Rule.Sem Rewrite.Splice Rewrite.EditDoc Front.JsonPrint.
 Import ListNotations.
 Local Open Scope Z_scope.
 
@@ -235,6 +235,14 @@ Definition run_case (fid : Z) (v : val) : val :=
           match update_file (gS (gNth 0 v)) ds with
           | (Done o, n) => VL [VZ 0; vOpt VS o; vNat n]
           | (Panic, _) => VL [VZ 1]
+          end
+  (* 44: (src pos del ins) -> accept_edit: (0 new-text (start old_end new_end) (sp) (oep) (nep)) | (1) *)
+  | 44 => match accept_edit (gS (gNth 0 v)) {| le_pos := gNat (gNth 1 v); le_del := gNat (gNth 2 v); le_ins := gS (gNth 3 v) |} with
+          | Done (new, ie) =>
+              let pt (p : N * N) := VL [vN (fst p); vN (snd p)] in
+              VL [VZ 0; VS new; VL [vNat (ie_start ie); vNat (ie_old_end ie); vNat (ie_new_end ie)];
+                  pt (ie_start_pos ie); pt (ie_old_end_pos ie); pt (ie_new_end_pos ie)]
+          | Panic => VL [VZ 1]
           end
   (* 42: (style ((doc ..) ..)) -> bytes written by the JSON printer *)
   | 42 => VS (run_printer (match gZ (gNth 0 v) with 0%Z => Pretty | 1%Z => Stream | _ => Compact end)
